@@ -37,6 +37,8 @@ type rpf struct {
 	inTableLoop int
 	multiHook func(call *ast.CallExpr, callee types.Object) ([]*Val, bool)
 	maxSteps  int // step budget of one fold (default 100000)
+	assertHook  func(r *rpf, ta *ast.TypeAssertExpr, v *Val) (holds, claimed bool)
+	curFn       *ast.FuncDecl // the function being folded (bare returns)
 	effectCalls bool // statement-level calls of repository functions are folded for their effect on fold-local storage
 	unroll    int // > 0: plain `for` loops over scalar state are unrolled up to this many iterations (constant propagation with bounded unrolling); 0: such loops are outside the fragment
 }
@@ -50,7 +52,7 @@ type rpfBreak struct{}
 
 // callFunc folds a function body on the given arguments. Returns the results.
 func (c *Ctx) rpfCall(fd *ast.FuncDecl, p *packages.Package, args []*Val, hooks *rpf) (res []*Val, err error) {
-	r := &rpf{c: c, p: p, env: map[types.Object]*Val{}}
+	r := &rpf{c: c, p: p, env: map[types.Object]*Val{}, curFn: fd}
 	if hooks != nil {
 		r.callHook = hooks.callHook
 		r.selHook = hooks.selHook
@@ -59,6 +61,7 @@ func (c *Ctx) rpfCall(fd *ast.FuncDecl, p *packages.Package, args []*Val, hooks 
 		r.multiHook = hooks.multiHook
 		r.unroll = hooks.unroll
 		r.effectCalls = hooks.effectCalls
+		r.assertHook = hooks.assertHook
 		r.maxSteps = hooks.maxSteps
 	}
 	defer func() {
@@ -211,6 +214,29 @@ func (r *rpf) stmt(s ast.Stmt) *rpfReturn {
 		for _, e := range x.Results {
 			out = append(out, r.expr(e))
 		}
+		if len(x.Results) == 0 && r.curFn != nil {
+			if r.curFn.Type.Results == nil || r.curFn.Type.Results.NumFields() == 0 {
+				return &rpfReturn{}
+			}
+			// named results: their current values
+			var vals []*Val
+			named := true
+			for _, f := range r.curFn.Type.Results.List {
+				if len(f.Names) == 0 {
+					named = false
+				}
+				for _, n := range f.Names {
+					v, ok := r.env[info.Defs[n]]
+					if !ok {
+						v = zeroOf(info.TypeOf(f.Type))
+					}
+					vals = append(vals, v)
+				}
+			}
+			if named {
+				return &rpfReturn{vals}
+			}
+		}
 		if len(x.Results) == 0 {
 			rpfFail("%s: bare return", r.c.pos(x.Pos()))
 		}
@@ -248,6 +274,45 @@ func (r *rpf) stmt(s ast.Stmt) *rpfReturn {
 						r.assign(l, vals[i], x.Tok == token.DEFINE)
 					}
 					return nil
+				}
+			}
+			// v, ok := x.(T): decided by the caller's hook (error values are symbolic in the fragment)
+			if len(x.Rhs) == 1 && len(x.Lhs) == 2 && r.assertHook != nil {
+				if ta, ok := ast.Unparen(x.Rhs[0]).(*ast.TypeAssertExpr); ok && ta.Type != nil {
+					v := r.expr(ta.X)
+					if holds, claimed := r.assertHook(r, ta, v); claimed {
+						if holds {
+							r.assign(x.Lhs[0], v, x.Tok == token.DEFINE)
+						} else {
+							r.assign(x.Lhs[0], zeroOf(info.TypeOf(ta.Type)), x.Tok == token.DEFINE)
+						}
+						r.assign(x.Lhs[1], vbool(holds), x.Tok == token.DEFINE)
+						return nil
+					}
+				}
+			}
+			// v, ok := m[k] on a map value modelled as a struct of its entries (keys folded to constants)
+			if len(x.Rhs) == 1 && len(x.Lhs) == 2 {
+				if ix, ok := ast.Unparen(x.Rhs[0]).(*ast.IndexExpr); ok {
+					if _, isMap := info.TypeOf(ix.X).Underlying().(*types.Map); isMap {
+						if m := r.expr(ix.X); m.K == VStruct && m.Fields != nil {
+							k := r.expr(ix.Index)
+							if k.K == VInt || k.K == VStr {
+								ks := k.S
+								if k.K == VInt {
+									ks = fmt.Sprint(k.I)
+								}
+								if e, has := m.Fields[ks]; has {
+									r.assign(x.Lhs[0], e, x.Tok == token.DEFINE)
+									r.assign(x.Lhs[1], vbool(true), x.Tok == token.DEFINE)
+								} else {
+									r.assign(x.Lhs[0], zeroOf(info.TypeOf(ix)), x.Tok == token.DEFINE)
+									r.assign(x.Lhs[1], vbool(false), x.Tok == token.DEFINE)
+								}
+								return nil
+							}
+						}
+					}
 				}
 			}
 			// v, ok := m[k] on a nil map: the zero value and false
@@ -860,8 +925,14 @@ func (r *rpf) expr(e ast.Expr) *Val {
 				}
 				return r.wrap(vint(v.I), ftv.Type)
 			}
-			if _, isSlice := ftv.Type.Underlying().(*types.Slice); isSlice && v.K == VStr {
+			if st, isSlice := ftv.Type.Underlying().(*types.Slice); isSlice && v.K == VStr {
 				out := &Val{K: VList, T: ftv.Type}
+				if eb, isB := st.Elem().Underlying().(*types.Basic); isB && eb.Kind() == types.Int32 {
+					for _, ch := range v.S { // []rune(s)
+						out.L = append(out.L, vint(int64(ch)))
+					}
+					return out
+				}
 				for i := 0; i < len(v.S); i++ {
 					out.L = append(out.L, vint(int64(v.S[i])))
 				}
